@@ -2,39 +2,13 @@
   L0 (structural) facts about the GENERATED model of Maximum, valid for every `[Scalar F]`
   (no law about the comparison `Scalar.lt` is used: they hold for the f64 semantics, NaN included).  Mirror image of Minimum.
 -/
+import TaRs.Lemmas.Core.Maximum
 import TaRs.Gen.Maximum
 import TaRs.Lemmas.RsLemmas
 namespace TaRs.Gen.Maximum
 open TaRs TaRs.Rs
 
 variable {F : Type} [Scalar F]
-
-/-- the state `new(period)` builds -/
-def fresh (p : Nat) : Maximum F :=
-  { period := p, max_index := 0, cur_index := 0, deque := Array.replicate p Scalar.negInf }
-
-/-- structural well-formedness: everything `next`/`reset` need in order not to panic -/
-structure WF (s : Maximum F) : Prop where
-  pos : 0 < s.period
-  small : s.period * 8 ≤ isizeMax
-  size : s.deque.size = s.period
-  cur : s.cur_index < s.period
-  mx : s.max_index < s.period
-
-theorem new_eq (p : Nat) :
-    (new p : Res (Maximum F)) =
-      if p = 0 then .err .InvalidParameter
-      else if p * 8 ≤ isizeMax then .ok (fresh p) else .panic := by
-  unfold new
-  cases p with
-  | zero => rfl
-  | succ n =>
-    by_cases h : (n + 1) * 8 ≤ isizeMax
-    · simp [vecNew_eq _ _ h, h, fresh, bind, Res.bind]
-    · simp [vecNew_none _ _ (by omega : isizeMax < (n + 1) * 8), h, bind, Res.bind]
-
-theorem fresh_wf (p : Nat) (hp : 0 < p) (h8 : p * 8 ≤ isizeMax) : WF (fresh p : Maximum F) :=
-  ⟨hp, h8, by simp [fresh], hp, hp⟩
 
 /-- `find_max_index` only looks at the buffer: first index holding a value `>` every earlier
     candidate (and `> −∞`), `0` when there is none -/
@@ -124,8 +98,5 @@ theorem nextBar_eq (s : Maximum F) (b : Bar F) : s.nextBar b = s.next b.high := 
 theorem nextBar_total (s : Maximum F) (b : Bar F) (h : WF s) :
     ∃ r, s.nextBar b = some r ∧ WF r.1 ∧ r.1.period = s.period := by
   rw [nextBar_eq]; exact next_total s b.high h
-
-omit [Scalar F] in
-theorem period_fn_eq (s : Maximum F) : s.period_fn = s.period := rfl
 
 end TaRs.Gen.Maximum
